@@ -21,6 +21,31 @@ macro_rules! bdd {
     };
 }
 
+/// Verification hooks, compiled only with the `verif` feature.
+#[cfg(feature = "verif")]
+pub mod verif_hooks {
+    use std::cell::Cell;
+
+    thread_local! {
+        /// Per-thread limit on the number of transformer applications of a single `fp` call.
+        pub static FP_ITERATION_LIMIT: Cell<Option<usize>> = const { Cell::new(None) };
+    }
+
+    pub const FP_LIMIT_MESSAGE: &str = "rsbdd-verif: fp iteration limit";
+
+    pub fn set_fp_iteration_limit(limit: Option<usize>) {
+        FP_ITERATION_LIMIT.with(|l| l.set(limit));
+    }
+
+    pub fn check_fp_iteration(iteration: usize) {
+        if let Some(limit) = FP_ITERATION_LIMIT.with(Cell::get) {
+            if iteration > limit {
+                panic!("{}", FP_LIMIT_MESSAGE);
+            }
+        }
+    }
+}
+
 #[derive(Debug, Clone, Default, Eq, PartialEq, Hash)]
 pub enum BDD<Symbol: BDDSymbol> {
     #[default]
@@ -424,7 +449,14 @@ impl<S: BDDSymbol> BDDEnv<S> {
         F: Fn(Rc<BDD<S>>) -> Rc<BDD<S>>,
     {
         let mut s = Rc::clone(&a);
+        #[cfg(feature = "verif")]
+        let mut verif_iterations: usize = 0;
         loop {
+            #[cfg(feature = "verif")]
+            {
+                verif_iterations += 1;
+                verif_hooks::check_fp_iteration(verif_iterations);
+            }
             let snew = t(Rc::clone(&s));
             if snew == s {
                 break;
